@@ -490,6 +490,28 @@ func runC09(c *ctx) {
 			}
 		}
 	}
+	// ties that only show when values are compared as values: the same instant in
+	// two zones, equal byte strings held nil and empty, equal numbers
+	for _, f := range all.fields {
+		if f.rel || f.code != 13 {
+			continue
+		}
+		for _, kind := range []string{"resources-soft", "resources-wrapped"} {
+			d := dictValues(13)
+			s := c09Scenario{t: all, colKind: kind, size: 10}
+			for i, idx := range []int{7, 10, 8, 11, 10, 7} {
+				v := d[idx%len(d)]
+				if f.nullable {
+					v = ptrTo(v)
+				}
+				s.items = append(s.items, []setOp{{"id", fmt.Sprintf("r%d", 9-i)}, {f.name, v}})
+			}
+			s.rules = []string{f.name, "id"}
+			c09Run(c, s, "tie-sweep")
+			s.rules = []string{"-" + f.name, "-id"}
+			c09Run(c, s, "tie-sweep")
+		}
+	}
 	n := 150
 	if c.thorough() {
 		n = 3000
